@@ -12,3 +12,9 @@ Proof.
   repeat (apply Forall_cons; [ first [ exact heavy_vec2 | exact heavy_vec3 | exact heavy_vec4 | exact heavy_extent2 | exact heavy_extent3 | exact heavy_vec8 ] | ]).
   apply Forall_nil.
 Qed.
+
+Lemma C11_degrees : C11_degrees_stmt.
+Proof.
+  unfold C11_degrees_stmt.
+  repeat split; intros k a; rrun_unfold; split_conds; try (exfalso; lra); eexists; (split; [ reflexivity | reflexivity ]).
+Qed.
